@@ -16,4 +16,5 @@ INVARIANT EquinoctialRoundTrip
 INVARIANT EqeMatchesCoe
 INVARIANT ArcSameOrbit
 INVARIANT ArcLagrange
+INVARIANT ArcMinimumEnergy
 INVARIANT NoOverflow
